@@ -46,6 +46,7 @@ Proof.
     assert (Hl : Forall (fun r => length (line_of w d r) = line_len w vel) recs) by exact (recs_len c' w d vel recs H').
     destruct (run_records_gen c w d vel (line_len w vel) recs n Hwd Ht Hb Hv Hl) as (st0 & Hs0 & Hrun).
     { unfold n. rewrite E. simpl. lia. }
+    { unfold room. rewrite HN. fold n. lia. }
     unfold n in Hrun. rewrite firstn_all in Hrun. fold n in Hrun.
     exists (file_w c w d recs). split.
     + unfold file_left, write_ops. rewrite Hs0. cbn [bind].
@@ -76,4 +77,43 @@ Proof.
       * reflexivity.
       * unfold gro_text in Hlim. rewrite !app_length in Hlim. cbn [length] in Hlim.
         rewrite !Nat2Z.inj_add in Hlim. rewrite !Nat2Z.inj_add. cbn [Z.of_nat] in *. lia.
+Qed.
+
+(* D18: once the announced count is reached, writeline refuses the record.  For a run of the domain whose
+   count N = number of records was announced, any operation list that goes on with a further record stops
+   there with IOError; nothing was written, the N records are on disk without a box line, and that file is
+   rejected (it is the crash point "before close" of C14_crash_points). *)
+Lemma overfull_refused c w d vel recs extra more : run_ok c w d vel recs ->
+  c_natoms c = Some (Z.of_nat (length recs)) ->
+  exists f0, write_gro c recs = Ok f0 /\
+    ((Z.of_nat (length f0) < SEEK_LIMIT)%Z ->
+     exists f, file_left c (map OpRec recs ++ OpRec extra :: more) = Ok (f, Some EIO) /\
+               read_gro f = Err EIO).
+Proof.
+  intros H HN. destruct (crash_points c w d vel recs H) as (f0 & Hw & Hcp).
+  exists f0. split; [exact Hw|]. intros Hlim.
+  set (n := length recs) in *.
+  assert (Hn : 1 <= n) by (apply (n_pos c w d vel recs H)).
+  destruct (Hcp Hlim n) as (fj & Hfj & Hrej).
+  { unfold write_ops, close_ops. rewrite app_length, map_length. fold n. simpl. lia. }
+  destruct (run_records c w d vel recs H n) as (st0 & Hs0 & Hrun); [fold n; lia|].
+  unfold n in Hrun. rewrite firstn_all in Hrun. fold n in Hrun.
+  assert (Efj : fj = wf (st_w c w d vel (line_len w vel) recs)).
+  { unfold file_after, write_ops in Hfj.
+    rewrite firstn_map_app in Hfj by (fold n; lia). unfold n in Hfj. rewrite firstn_all in Hfj.
+    rewrite Hs0 in Hfj. cbn [bind] in Hfj. rewrite Hrun in Hfj. cbn [bind] in Hfj. inversion Hfj. reflexivity. }
+  exists fj. split; [|exact Hrej].
+  unfold file_left. rewrite Hs0. cbn [bind].
+  rewrite (w_run_keep_app _ _ _ _ Hrun).
+  cbn [w_run_keep w_step]. unfold w_writeline.
+  change (wset (st_w c w d vel (line_len w vel) recs))
+    with (Some (mkwsetup (length (header0 c)) w d vel)).
+  cbv iota. unfold w_record, count_reached.
+  change (wnat (st_w c w d vel (line_len w vel) recs)) with (c_natoms c).
+  change (wcur (st_w c w d vel (line_len w vel) recs)) with n.
+  rewrite HN. fold n. rewrite Z.leb_refl.
+  unfold w_after_fail.
+  change (wset (st_w c w d vel (line_len w vel) recs))
+    with (Some (mkwsetup (length (header0 c)) w d vel)).
+  rewrite Efj. reflexivity.
 Qed.
